@@ -32,7 +32,7 @@ def scenario_list(tier):
             if start:
                 out.append(dict(base, op='truncate', to=1))
                 out.append(dict(base, op='truncate', to=0))
-            for m in ('meta-first', 'meta-change', 'meta-pop-one', 'meta-pop-last', 'meta-setitem', 'meta-del'):
+            for m in ('meta-first', 'meta-change', 'meta-pop-one', 'meta-pop-last', 'meta-setitem', 'meta-del', 'meta-samelen'):
                 if trail and start == 0 and tier == 'quick':
                     continue
                 out.append(dict(base, op=m))
@@ -88,12 +88,14 @@ def bad_item(sc):
 
 
 def has_meta_at_start(sc):
-    return sc['op'] in ('meta-change', 'meta-pop-one', 'meta-pop-last', 'meta-setitem', 'meta-del')
+    return sc['op'] in ('meta-change', 'meta-pop-one', 'meta-pop-last', 'meta-setitem', 'meta-del', 'meta-samelen')
 
 
 def start_meta(sc):
     if sc['op'] in ('meta-pop-last',):
         return {'a': 1}
+    if sc['op'] == 'meta-samelen':
+        return {'start': 100, 'stop': 200}
     if has_meta_at_start(sc):
         return dict(META0)
     return None
@@ -178,6 +180,9 @@ def build(sc, path):
             def fn():
                 h.metadata['b'] = 'three'
             m1 = dict(m0, b='three')
+        elif op == 'meta-samelen':      # same serialized length, two separated positions change
+            fn = lambda: h.metadata.update({'start': 300, 'stop': 400})
+            m1 = {'start': 300, 'stop': 400}
         elif op == 'meta-del':
             def fn():
                 del h.metadata['b']
@@ -201,19 +206,19 @@ def content_key(c):
     return ('array', c.dtype.str, c.shape, c.tobytes())
 
 
-def observe(kind, path):
+def observe(kind, path, mode='r'):
     """-> (content outcome, metadata outcome); each ('raises', excname) or ('ok', value)"""
     darr = import_darr()
     if kind == 'array':
         def rd():
-            a = darr.Array(path)
+            a = darr.Array(path, accessmode=mode)
             v = a[:]
             if tuple(a.shape) != v.shape or a.dtype != v.dtype:
                 raise RuntimeError('handle attributes disagree with the data read')
             return a, v
     else:
         def rd():
-            a = darr.RaggedArray(path)
+            a = darr.RaggedArray(path, accessmode=mode)
             return a, [a[k] for k in range(len(a))]
     w, v = outcome_of(rd)
     if w == 'raises':
@@ -270,8 +275,6 @@ def _evaluate(sc, tier):
         if dg in seen:
             stats['duplicates'] += 1
             continue
-        crash.materialise(files, 'snap.darr')
-        (cw, cv), (mw, mv) = observe(kind, 'snap.darr')
         seen[dg] = 1
         stats['opened'] += 1
         core = {k: v for k, v in files.items() if os.path.basename(k) in readers}
@@ -280,33 +283,37 @@ def _evaluate(sc, tier):
             stats['intermediate_core_state'] += 1
         where = (f"{info['point'][0]}:{info['point'][1]} ({info['point'][3]})" if skind == 'observed' else
                  f"torn {info['file']} cut to {info['length']} B [{info['torn_kind']}] before {info['point'][0]}:{info['point'][1]}")
-        if cw == 'raises':
-            stats['open_raises'] += 1
-            continue
-        ck = content_key(cv)
-        if ck not in legit_keys:
-            stats['WRONG'] += 1
-            desc = describe(cv)
-            V.append(viol('crash', sc['op'], f'{kind},start={sc["start"]}', 'opens with contents that are no legitimate state',
-                          f'{scname}: crash at {where}: the array opens and shows {desc}, which is neither the state before, '
-                          f'the state after, nor original + whole chunks',
-                          snapshot_info=info, kind=skind))
-            continue
-        idx = legit_keys.index(ck)
-        stats[f'opens_as_legit_{idx}'] += 1
-        if mw == 'raises':
-            stats['metadata_raises'] += 1
-        else:
-            mk = jdump(mv)
-            if mk not in meta_keys:
+        for mode in ('r', 'r+'):            # opening read-write must be as safe as opening read-only
+            crash.materialise(files, 'snap.darr')
+            (cw, cv), (mw, mv) = observe(kind, 'snap.darr', mode)
+            tag = '' if mode == 'r' else '_rw'
+            if cw == 'raises':
+                stats['open_raises' + tag] += 1
+                continue
+            ck = content_key(cv)
+            if ck not in legit_keys:
                 stats['WRONG'] += 1
-                V.append(viol('crash', sc['op'], f'{kind},start={sc["start"]}', 'metadata read back are neither the old nor the new dictionary',
-                              f'{scname}: crash at {where}: metadata read back as {mv!r:.80}, expected one of {metas!r:.120}',
-                              snapshot_info=info, kind=skind))
+                desc = describe(cv)
+                V.append(viol('crash', sc['op'], f'{kind},start={sc["start"]}', 'opens with contents that are no legitimate state',
+                              f'{scname}: crash at {where}: opened with accessmode={mode!r} the array shows {desc}, which is neither '
+                              f'the state before, the state after, nor original + whole chunks',
+                              snapshot_info=info, kind=skind, mode=mode))
+                continue
+            idx = legit_keys.index(ck)
+            stats[f'opens_as_legit_{idx}' + tag] += 1
+            if mw == 'raises':
+                stats['metadata_raises' + tag] += 1
             else:
-                stats[f'meta_{meta_keys.index(mk)}'] += 1
-                if sc['op'].startswith('meta-') and idx != 0:
-                    V.append(viol('crash', sc['op'], f'{kind}', 'contents changed by a metadata operation', f'{scname}: {where}'))
+                mk = jdump(mv)
+                if mk not in meta_keys:
+                    stats['WRONG'] += 1
+                    V.append(viol('crash', sc['op'], f'{kind},start={sc["start"]}', 'metadata read back are neither the old nor the new dictionary',
+                                  f'{scname}: crash at {where}: metadata read back as {mv!r:.80}, expected one of {metas!r:.120}',
+                                  snapshot_info=info, kind=skind))
+                else:
+                    stats[f'meta_{meta_keys.index(mk)}' + tag] += 1
+                    if sc['op'].startswith('meta-') and idx != 0:
+                        V.append(viol('crash', sc['op'], f'{kind}', 'contents changed by a metadata operation', f'{scname}: {where}'))
     # the completed operation itself must have produced the expected after-state
     (cw, cv), (mw, mv) = observe(kind, 'x.darr')
     if cw == 'raises' or content_key(cv) != legit_keys[final] or mw == 'raises' or jdump(mv) != meta_keys[-1]:
@@ -359,7 +366,7 @@ def run(tier):
             if st.get('opens_as_legit_0', 0) < 1:
                 problems.append(f'{name}: no snapshot opened as the state before')
             if not sc['op'].startswith('meta-') and sc['op'] != 'iterappend-badshape-none':
-                if sum(v for k, v in st.items() if k.startswith('opens_as_legit_') and k != 'opens_as_legit_0') < 1:
+                if sum(v for k, v in st.items() if k.startswith('opens_as_legit_') and not k.endswith('_rw') and k != 'opens_as_legit_0') < 1:
                     problems.append(f'{name}: no snapshot opened as a later legitimate state')
                 if st.get('open_raises', 0) < 1:
                     problems.append(f'{name}: no snapshot was rejected at open')
@@ -371,7 +378,8 @@ def run(tier):
         'evaluations': tot['opened'], 'distinct_nontrivial': tot['intermediate_core_state'],
         'rule': ('scenarios {Array 1-D/2-D, RaggedArray atom ()/(2,)} x {empty, 3 rows/subarrays} x {append, append of zero rows, '
                  'iterappend of 3, iterappend whose iterable raises after 2, iterappend with a wrong-shape 2nd item, truncate to 2/1/0, '
-                 'metadata first update / changing update / setitem / del / pop leaving one / pop of the last key}'
+                 'metadata first update / changing update / update that keeps the serialized length / setitem / del / pop leaving one / pop of '
+                 'the last key}; every snapshot opened with accessmode r AND r+'
                  + (' + 1-byte and big-endian element types' if tier == 'thorough' else '')
                  + '; crash points: every line/return/exception event of frames executing code of the tree under test'
                  + (', every byte-code of those frames and every line of every other Python frame' if tier == 'thorough' else '')
@@ -385,7 +393,12 @@ def run(tier):
         'snapshots_enumerated': tot['snapshots'], 'observed_states': tot['observed'], 'torn_variants': tot['torn'],
         'duplicate_snapshots_skipped': tot['duplicates'], 'open_raises': tot['open_raises'],
         'opened_as_state_before': tot['opens_as_legit_0'],
-        'opened_as_later_legitimate_state': sum(v for k, v in tot.items() if k.startswith('opens_as_legit_') and k != 'opens_as_legit_0'),
+        'opened_as_later_legitimate_state': sum(v for k, v in tot.items() if k.startswith('opens_as_legit_') and not k.endswith('_rw')
+                                                and k != 'opens_as_legit_0'),
+        'opened_rw_as_state_before': tot['opens_as_legit_0_rw'],
+        'opened_rw_as_later_legitimate_state': sum(v for k, v in tot.items() if k.startswith('opens_as_legit_') and k.endswith('_rw')
+                                                   and k != 'opens_as_legit_0_rw'),
+        'open_rw_raises': tot['open_raises_rw'],
         'metadata_unreadable_while_array_opens': tot['metadata_raises'],
         'multi_file_steps': tot['multi_file_steps'],
         'exhaustive': True, 'per_scenario': per,
